@@ -201,7 +201,7 @@ def gen_with_macro(r: random.Random):
     asv = r.choice(["", "", " as v"])
     if r.random() < 0.25:
         body = r.choice(["x = 1", "not python $", "ls -l", "a; b"])
-        return f"with! {ctx}{asv}: {body}\n", ctx, body
+        return f"with! {ctx}{asv}: {body}\n", ctx, f" {body}\n"  # one-line form: the rest of the line
     ind = r.choice(["    ", "  ", "\t"])
     lines = gen_block_body(r, ind)
     text = "".join(ln + "\n" for ln in lines)
